@@ -10,7 +10,7 @@ from harness import util, dyn
 THEOREMS = ['C08_dual_ring', 'C08_dual_is_derivative', 'C08_derivative_linear',
             'C08_central_difference_exact_deg2', 'C08_central_difference_deg3', 'C08_matvec_adjoint',
             'C08_compose_adjoint', 'C08_cumsum_adjoint', 'C08_product_jacobian_adjoint',
-            'C08_linear_jvp_is_self', 'C08_linear_jvp_vjp', 'C08_advection_jvp', 'C08_example']
+            'C08_linear_jvp_is_self', 'C08_linear_jvp_vjp', 'C08_advection_jvp', 'C08_checkpoint_irrelevant', 'C08_example']
 LEVEL = 'proof'
 LEVEL_TEXT = ('Coq theorems: dual numbers form a commutative ring; for EVERY expression of field operations evaluation '
               'at x+eps*v yields (value, directional derivative); the derivative is linear in the tangent; central '
@@ -22,7 +22,7 @@ LEVEL_TEXT = ('Coq theorems: dual numbers form a commutative ring; for EVERY exp
               'finiteness, checkpoint/nesting invariance) - that part is exploration, stated as such.')
 LEVEL_NOTE = ('JAX AD, jax.checkpoint and XLA are trusted/exercised, not modelled; exp/log/power parts (Held-Suarez, moist '
               'rational terms) are only explored; dual-number correspondence covers the sigma-coordinate column '
-              'operators')
+              'operators, the T*omega/p column operator and the implicit temperature operator (dense and cumulative-sum)')
 TECHNIQUE = 'Coq proof (dual-number derivative + adjoint theorems) with extracted dual-carrier model vs jax.jvp; AD oracles by exploration'
 
 
@@ -35,6 +35,13 @@ def generate(ctx):
             x = util.small_rationals(rng, (K,)).tolist(); v = util.small_rationals(rng, (K,)).tolist()
             w = util.small_rationals(rng, (max(K - 1, 0),)).tolist(); dw = util.small_rationals(rng, (max(K - 1, 0),)).tolist()
             yield 'jvp_sigma', {'b': b, 'x': x, 'v': v, 'w': w, 'dw': dw}
+    for K in ([1, 2, 3, 5] if quick else [1, 2, 3, 4, 6, 8]):
+        b = util.uneven_boundaries(rng, K).tolist()
+        arr = lambda: util.small_rationals(rng, (K,)).tolist()
+        tref = (250.0 + rng.integers(-80, 81, size=K) / 4.0).tolist()
+        if K >= 3 and rng.integers(0, 2): tref[-1] = tref[0]
+        yield 'jvp_primeq', {'b': b, 'tref': tref, 'T': arr(), 'g': arr(), 'vg': arr(), 'dT': arr(), 'dg': arr(), 'dvg': arr(),
+                              'div': arr(), 'ddiv': arr()}
     # differentiable entry points of the implementation
     ents = [('grid_ops', {}), ('filters', {}), ('interp', {})]
     kinds = ['dry', 'moist'] if quick else ['dry', 'time', 'moist', 'cloud']
@@ -108,6 +115,35 @@ def r_jvp_sigma(ctx, a):
         cmp(f'get_geopotential_diff sparse={sparse}',
             lambda q: pe.get_geopotential_diff(q, c, 287.0, method='sparse' if sparse else 'dense'), (T,), (dT,),
             4, [K, sparse], [ls, T.ravel(), dT.ravel(), [287.0]], 287.0 * float(np.abs(ls).max()) * float(np.abs(T).sum() + np.abs(dT).sum()))
+
+
+def r_jvp_primeq(ctx, a):
+    """jax.jvp of the implementation's column operators of the primitive equations vs the dual-number
+    run of Model/PrimEq.v / Model/Implicit.v."""
+    m = dyn.mods(); jax = m['jax']; jnp = m['jnp']; sc = m['sc']; pe = m['pe']
+    b = np.asarray(a['b']); K = len(b) - 1
+    g = dyn.grid(M=2, L=3, I=4, J=3)
+    c = dyn.coords(g, b); specs = dyn.pe_specs()
+    tref = np.asarray(a['tref'], dtype=np.float64)
+    eq = dyn.pe_equation('dry', c, specs, tref)
+    ls = np.log(c.vertical.centers)
+    col = lambda v: jnp.asarray(np.asarray(v, dtype=np.float64).reshape(K, 1, 1))
+    T, gterm, vg, dT, dg, dvg = (np.asarray(a[k], dtype=np.float64) for k in ('T', 'g', 'vg', 'dT', 'dg', 'dvg'))
+    p, t = jax.jvp(lambda x, y, z: eq._t_omega_over_sigma_sp(x, y, z), (col(T), col(gterm), col(vg)), (col(dT), col(dg), col(dvg)))
+    mo = ctx.model.call(6, [K], [ls, b, tref, [specs.R, specs.kappa], T, gterm, vg, dT, dg, dvg])
+    th = float(np.min(np.diff(b)))
+    scale = float((np.abs(T).max() + np.abs(dT).max() + 1) * (np.abs(vg).max() + np.abs(dvg).max()
+                  + 2 * np.abs(ls).max() * (np.abs(gterm).sum() + np.abs(dg).sum()) / th) + 1e-300)
+    ctx.corr('_t_omega_over_sigma_sp (primal, tangent) vs dual-number model', np.concatenate([np.ravel(p), np.ravel(t)]), mo, scale=scale)
+    dv, ddv = np.asarray(a['div'], dtype=np.float64), np.asarray(a['ddiv'], dtype=np.float64)
+    H = np.abs(pe.get_temperature_implicit_weights(c.vertical, tref, specs.kappa)).max() + 1e-300
+    for sparse in (0, 1):
+        p, t = jax.jvp(lambda x: pe.get_temperature_implicit(x, c.vertical, tref, specs.kappa, method='sparse' if sparse else 'dense'),
+                       (col(dv),), (col(ddv),))
+        mo = ctx.model.call(7, [K, sparse], [ls, b, tref, [specs.R, specs.kappa], dv, ddv])
+        ctx.corr(f'get_temperature_implicit sparse={sparse} (primal, tangent) vs dual-number model',
+                 np.concatenate([np.ravel(p), np.ravel(t)]), mo, scale=float(H * K * (np.abs(dv).sum() + np.abs(ddv).sum()) / th + 1e-300))
+        ctx.oracle(f'derivative finite: get_temperature_implicit sparse={sparse}', bool(np.all(np.isfinite(np.asarray(t)))))
 
 
 # ---------------------------------------------------------------------------
@@ -329,6 +365,6 @@ def r_checkpoint(ctx, a):
     ctx.oracle_close('value of nested scan = flat scan', loss_nested(init, xs), loss_flat(init, xs), tol_rel=1e-12)
 
 
-RUNNERS = {'jvp_sigma': r_jvp_sigma, 'grid_ops': r_grid_ops, 'filters': r_filters, 'interp': r_interp,
+RUNNERS = {'jvp_sigma': r_jvp_sigma, 'jvp_primeq': r_jvp_primeq, 'grid_ops': r_grid_ops, 'filters': r_filters, 'interp': r_interp,
            'pe_terms': r_pe_terms, 'pe_step': r_pe_step, 'sw_terms': r_sw_terms, 'sw_step': r_sw_step,
            'held_suarez': r_held_suarez, 'checkpoint': r_checkpoint}
